@@ -5,6 +5,6 @@ CONSTANTS
   MaxSteps = 6
   Errs = {"overflow", "corrupt"}
   StartEof = FALSE
-INVARIANTS RefAccepts Abstraction ParkedReaderRegistered ParkedFeederRegistered Emit
+INVARIANTS RefAccepts Abstraction ParkedReaderRegistered ParkedFeederRegistered IndMapped Emit
 VIEW View
 CHECK_DEADLOCK FALSE
